@@ -412,6 +412,68 @@ def _(M, a):
     return a[0].replace(a[1], a[2], a[3] if a[3] >= 0 else -1) if a[3] != 0 else a[0]
 
 
+# unicode / utf8 on concrete values (Go strings are carried one char per byte)
+def _rune_pred(fn):
+    def h(M, a):
+        need_conc(a[0])
+        r = a[0]
+        try:
+            return bool(fn(chr(r))) if 0 <= r <= 0x10FFFF and not (0xD800 <= r <= 0xDFFF) else False
+        except ValueError:
+            return False
+    return h
+
+
+INTR['unicode.IsUpper'] = _rune_pred(lambda c: c.isupper())
+INTR['unicode.IsLower'] = _rune_pred(lambda c: c.islower())
+INTR['unicode.IsLetter'] = _rune_pred(lambda c: c.isalpha())
+INTR['unicode.IsDigit'] = _rune_pred(lambda c: c.isdecimal())
+INTR['unicode.IsNumber'] = _rune_pred(lambda c: c.isnumeric())
+INTR['unicode.IsSpace'] = _rune_pred(lambda c: c in '\t\n\v\f\r \x85\xa0' or (ord(c) > 0xff and c.isspace()))
+INTR['unicode.IsPunct'] = _rune_pred(lambda c: __import__('unicodedata').category(c).startswith('P'))
+INTR['unicode.ToUpper'] = lambda M, a: (need_conc(a[0]), ord(chr(a[0]).upper()) if len(chr(a[0]).upper()) == 1 else a[0])[1]
+INTR['unicode.ToLower'] = lambda M, a: (need_conc(a[0]), ord(chr(a[0]).lower()) if len(chr(a[0]).lower()) == 1 else a[0])[1]
+
+
+def _utf8_decode(M, a):
+    need_conc(a[0])
+    s = a[0]
+    if len(s) == 0:
+        return (0xFFFD, 0)
+    return decode_rune(s, 0)
+
+
+def _utf8_decode_bytes(M, a):
+    bs = _bytes_of(a[0])
+    if not bs:
+        return (0xFFFD, 0)
+    return decode_rune(''.join(chr(b) for b in bs), 0)
+
+
+def _utf8_count(M, a):
+    need_conc(a[0])
+    s, i, n = a[0], 0, 0
+    while i < len(s):
+        i += decode_rune(s, i)[1]
+        n += 1
+    return n
+
+
+INTR['unicode/utf8.DecodeRuneInString'] = _utf8_decode
+INTR['unicode/utf8.DecodeRune'] = _utf8_decode_bytes
+INTR['unicode/utf8.RuneCountInString'] = _utf8_count
+INTR['unicode/utf8.RuneLen'] = lambda M, a: (need_conc(a[0]), -1 if a[0] < 0 or a[0] > 0x10FFFF or 0xD800 <= a[0] <= 0xDFFF else 1 if a[0] < 0x80 else 2 if a[0] < 0x800 else 3 if a[0] < 0x10000 else 4)[1]
+INTR['unicode/utf8.ValidString'] = lambda M, a: (need_conc(a[0]), all(True for _ in [a[0].encode('latin-1').decode('utf-8', 'strict')]) if _try_utf8(a[0]) else False)[1]
+
+
+def _try_utf8(s):
+    try:
+        s.encode('latin-1').decode('utf-8')
+        return True
+    except Exception:
+        return False
+
+
 def _bytes_of(x):
     if x is None:
         return []
